@@ -21,8 +21,9 @@
 (*                  map, an operator token that is not a registered prefix *)
 (*                  operator in prefix position, more than TokenFloor      *)
 (*                  tokens): engine may return Err, but if Ok then Ok(t)   *)
-(*   Unspecified    accepted or not, any tree (mixed associativity on one  *)
-(*                  level, a second postfix after a prefixed operand)      *)
+(*   Unspecified    accepted or not, any tree (a CHAIN that mixes left- and    *)
+(*                  right-associative operators of one level, a second      *)
+(*                  postfix after a prefixed operand)                       *)
 (*   MustReject     everything else                                        *)
 (***************************************************************************)
 EXTENDS Integers, Sequences, FiniteSets, TLC, OpTable
@@ -55,7 +56,7 @@ OpAt(T, ts, p, k) ==
   ELSE <<>>
 MkBin(o, l, r) == IF o[1] THEN <<"un", "not", <<"bin", o[2], l, r>>>> ELSE <<"bin", o[2], l, r>>
 
-RECURSIVE RExpr(_,_,_), RLevel(_,_,_,_), RLoopL(_,_,_,_,_), RPrefixed(_,_,_), RAtom(_,_,_),
+RECURSIVE RExpr(_,_,_), RLevel(_,_,_,_), RLoopL(_,_,_,_,_), RCollect(_,_,_,_,_,_), FoldLeft(_,_,_,_), FoldRight(_,_,_), RMixed(_,_,_,_), RPrefixed(_,_,_), RAtom(_,_,_),
           RItems(_,_,_,_,_,_), RPairs(_,_,_,_,_), RArgs(_,_,_,_,_,_)
 
 \* expression := level-1 [ "?" expression ":" expression ]
@@ -82,7 +83,8 @@ RLevel(T, ts, p, k) ==
       ELSE LET r == RLevel(T, ts, first.p + o[3], k) IN
            IF ~r.ok THEN Fail
            ELSE Ok(MkBin(o, first.t, r.t), r.p, first.len \/ r.len, first.un \/ r.un)
-    ELSE RLoopL(T, ts, first, k, 0)
+    ELSE IF LevelIsLeft(T, k) THEN RLoopL(T, ts, first, k, 0)
+    ELSE RMixed(T, ts, first, k)
 \* n = operators already folded on this level; a level with both associativities is unspecified once it chains
 RLoopL(T, ts, acc, k, n) ==
   LET o == OpAt(T, ts, acc.p, k) IN
@@ -91,6 +93,25 @@ RLoopL(T, ts, acc, k, n) ==
        IF ~r.ok THEN Fail
        ELSE RLoopL(T, ts, Ok(MkBin(o, acc.t, r.t), r.p, acc.len \/ r.len,
                              acc.un \/ r.un \/ (n >= 1 /\ ~LevelIsLeft(T, k))), k, n + 1)
+
+\* a level that holds operators of both associativities: what is pinned down is the chain at hand - when every operator occurring in
+\* it is left-associative it folds left, when every one is right-associative it folds right (an operator's associativity is its own,
+\* whatever else shares its precedence); only a chain that really mixes the two is unspecified
+RCollect(T, ts, p, k, ops, es) ==
+  LET o == OpAt(T, ts, p, k) IN
+  IF o = <<>> THEN [ok |-> TRUE, ops |-> ops, es |-> es, p |-> p]
+  ELSE LET r == RLevel(T, ts, p + o[3], k + 1) IN
+       IF ~r.ok THEN [ok |-> FALSE, ops |-> ops, es |-> es, p |-> p]
+       ELSE RCollect(T, ts, r.p, k, Append(ops, o), Append(es, r))
+FoldLeft(ops, es, i, acc) == IF i > Len(ops) THEN acc ELSE FoldLeft(ops, es, i + 1, MkBin(ops[i], acc, es[i + 1].t))
+FoldRight(ops, es, i) == IF i > Len(ops) THEN es[i].t ELSE MkBin(ops[i], es[i].t, FoldRight(ops, es, i + 1))
+RMixed(T, ts, first, k) ==
+  LET c == RCollect(T, ts, first.p, k, <<>>, <<first>>) IN
+  IF ~c.ok THEN Fail
+  ELSE LET as == {Assoc(T, c.ops[i][2]) : i \in 1..Len(c.ops)}
+           len == \E i \in 1..Len(c.es) : c.es[i].len
+           un == (\E i \in 1..Len(c.es) : c.es[i].un) \/ (Len(c.ops) >= 2 /\ Cardinality(as) = 2) IN
+       Ok(IF as = {"R"} THEN FoldRight(c.ops, c.es, 1) ELSE FoldLeft(c.ops, c.es, 1, first.t), c.p, len, un)
 
 \* prefixed := op prefixed | atom [ postfix ]   -- prefix binds tighter than every level, postfix tighter than prefix
 RPrefixed(T, ts, p) ==
@@ -160,9 +181,12 @@ RStmts(T, ts, p, acc, fl) ==
       ELSE RStmts(T, ts, e.p, Append(acc, e.t), [f2 EXCEPT !.len = TRUE])
 
 RefParse(ts, T) == RStmts(T, ts, 1, <<>>, NoFlags)
+\* a token of kind "bad" stands for text the tokenizer cannot tokenize (unterminated string, malformed number): a lexical error
+\* anywhere is a rejection, whatever surrounds it
 Verdict(ts, T) ==
   LET r == RefParse(ts, T) IN
-  IF ~r.ok THEN <<"MustReject">>
+  IF \E i \in 1..Len(ts) : ts[i][1] = "bad" THEN <<"MustReject">>
+  ELSE IF ~r.ok THEN <<"MustReject">>
   ELSE IF r.un THEN <<"Unspecified">>
   ELSE IF r.len \/ Len(ts) > TokenFloor THEN <<"MayAccept", r.t>>
   ELSE <<"MustAccept", r.t>>
